@@ -8,6 +8,7 @@ CONSTANTS
   AllValues = FALSE
   Rots = {0, 1}
   PatSet = {"zeros"}
+  Boundaries = {1}
   NearFields = 0
   EFN = {2, 3}
   EFMaxThreads = 3
